@@ -47,15 +47,22 @@ def run(tier, seed, replay=None):
             uniq = sorted(set(x for x in b['knots'] if s_ < x < e_))
             cand = set()
             for _ in range(rng.randint(1, 3)):
-                kind = rng.choice(['knot', 'between', 'between', 'end'])
+                kind = rng.choice(['knot', 'between', 'between', 'end', 'near'])
                 if kind == 'knot' and uniq:
                     cand.add(rng.choice(uniq))
+                elif kind == 'near' and uniq and b['periodic'] < 0:
+                    # what 0.1 + 0.2 is to the knot 0.3: within the knot tolerance of an existing knot, not equal to it
+                    cand.add(rng.choice(uniq) + rng.choice([-1, 1]) * Fr(1, 2 ** rng.choice([40, 36, 34])))
                 elif kind == 'end' and b['periodic'] < 0:
                     cand.add(rng.choice([s_, e_]))
                 else:
                     cand.add(s_ + (e_ - s_) * Fr(rng.randint(1, 63), 64))
                 dist['point_kind'][kind] = dist['point_kind'].get(kind, 0) + 1
-            pts = sorted(cand)
+            pts = []
+            for x_ in sorted(cand):
+                # an increasing set of parameters: values the tolerance cannot tell apart are one value
+                if not pts or x_ - pts[-1] > Fr(1, 2 ** 20):
+                    pts.append(x_)
         b = spec['bases'][d]
         dist['pardim'][pd] = dist['pardim'].get(pd, 0) + 1
         dist['periodic_dir'][b['periodic'] >= 0] = dist['periodic_dir'].get(b['periodic'] >= 0, 0) + 1
@@ -78,7 +85,7 @@ def run(tier, seed, replay=None):
             # a curve that jumps at a split point (knot of multiplicity >= order there) cannot be re-joined by it, and the
             # property does not ask for that
             b0_ = spec['bases'][0]
-            jump_at_split = pd == 1 and any(b0_['knots'].count(x) >= b0_['order'] for x in pts)
+            jump_at_split = pd == 1 and any(sum(1 for y_ in b0_['knots'] if abs(y_ - x) < Fr(1, 10 ** 10)) >= b0_['order'] for x in pts)
             if pd == 1 and len(plist) > 1 and not jump_at_split:
                 try:
                     cur = plist[0].clone()
@@ -217,6 +224,9 @@ def run(tier, seed, replay=None):
             continue
         o = O.make_impl(spec)
         n = rng.choice([1, 2])
+        if rng.random() < 0.5:
+            # one count per direction, zero (no cut in that direction) included; a single 0 leaves the object whole
+            n = tuple(rng.choice([0, 0, 1, 2]) for _ in spec['bases']) if len(spec['bases']) > 1 else rng.choice([0, 1, 2, [0], [2]])
         try:
             parts = refinement.subdivide([o.clone()], n)
         except Exception as e:  # noqa
